@@ -49,3 +49,19 @@ def collectStr (pass1 pass2 : List (List Byte)) : List Chunk :=
   .extend (encVarint 64 (pass1.map List.length).sum) :: pass2.map .extend
 
 end Postcard
+
+namespace Postcard
+
+/-- mirrors serde's `iterator_len_hint` used by the DEFAULT `Serializer::collect_seq` /
+`collect_map` (postcard does not override them): the length is known only when the
+iterator's `size_hint()` is exact.  MODELLED (serde). -/
+def iteratorLenHint (lo : Nat) (hi : Option Nat) : Option Nat :=
+  match hi with
+  | some h => if lo = h then some lo else none
+  | none => none
+
+/-- `collect_seq(iter)` = `serialize_seq(iterator_len_hint(&iter))`, then the elements. -/
+def collectHeader (lo : Nat) (hi : Option Nat) : R (List Chunk) :=
+  serSeqHeader (iteratorLenHint lo hi)
+
+end Postcard
